@@ -295,7 +295,83 @@ def check_inclusive(ctx, out, rule="C02.incl"):
                                          parent.name, "an INCLUSIVE" if incl else "a HALF-OPEN", {"Lt": "<", "Le": "<=", "Gt": ">", "Ge": ">="}[op],
                                          "a change touching only the last character of the range (the `>` of a start tag) is missed" if incl else "a change starting right after the range counts as inside it"))
                         break
+    if n == 0:
+        n += _inclusive_by_flag(ctx, out, rule, incl_fields)
     out.inst(rule, n, 2, ["RangeInclusive -> `start <= end_col`", "Range -> `start < end_col`"], exhaustive=True)
+
+
+def _inclusive_by_flag(ctx, out, rule, incl_fields):
+    """The same rule when the inclusive / half-open distinction is a *value*: a crate struct carrying
+    `end` and a boolean, built with `true` from an inclusive range's end and with `false` from a
+    half-open one's; the comparison against the end column must be inclusive under the flag and
+    exclusive under its negation."""
+    n = 0
+    # (1) construction sites: struct aggregates with a constant bool field and a field from a range's end
+    flag_of = {}      # (adt path, bool field) -> {True: 'incl'|'excl', False: ...}
+    for b in ctx.reachable_bodies():
+        if b.promoted is not None:
+            continue
+        for bi, j, s in b.assigns():
+            rv = s["rv"]
+            if rv["k"] != "agg" or rv.get("agg") != "adt" or not (rv.get("path") or "").startswith("blockwatch::"):
+                continue
+            names = rv.get("fields") or []
+            consts = {}
+            kinds = set()
+            for nm, op in zip(names, rv["ops"]):
+                k = op.get("k")
+                if isinstance(k, dict) and k.get("ty") == "bool" and "int" in k:
+                    consts[nm] = bool(k["int"])
+                    continue
+                labs = ctx.prov.resolve_upvars(b, ctx.prov.read_operand(b, op))
+                if any(any(f in lab[2] for f in incl_fields) and ("end" in lab[2] or lab[0] == "call") for lab in labs) or P.has_call(labs, r"RangeInclusive::<Idx>::end$"):
+                    kinds.add("incl")
+                elif any("end" in lab[2] and any(str(x).endswith("position_range") for x in lab[2]) for lab in labs):
+                    kinds.add("excl")
+            if len(consts) == 1 and len(kinds) == 1:
+                (fname, val), = consts.items()
+                flag_of.setdefault((rv["path"], fname), {})[val] = kinds.pop()
+    if not flag_of:
+        return 0
+    for (adtp, fname), m in flag_of.items():
+        if m.get(True) == "excl" or m.get(False) == "incl":
+            pol = {True: "excl", False: "incl"}
+        else:
+            pol = {True: "incl", False: "excl"}
+        if set(m.values()) != {"incl", "excl"} or len(m) != 2:
+            continue
+        # (2) comparisons against the end column guarded by the flag
+        for b in ctx.reachable_bodies():
+            if b.promoted is not None:
+                continue
+            for bi, j, s in b.assigns():
+                rv = s["rv"]
+                if rv["k"] != "bin" or rv["op"] not in ("Lt", "Le", "Gt", "Ge"):
+                    continue
+                for side in ("a", "b"):
+                    labs = ctx.prov.resolve_upvars(b, ctx.prov.read_operand(b, rv[side]))
+                    if not any(tuple(lab[2][-2:]) == ("end", "character") or ("end" in lab[2] and "character" in lab[2]) for lab in labs if lab[0] in ("param", "upvar")):
+                        continue
+                    flagv = None
+                    for br, vals, e in util.guards(ctx, b, bi):
+                        txt = render(e, 300)
+                        if txt.endswith("." + fname) or ("." + fname) in txt:
+                            flagv = (0 not in vals)
+                    if flagv is None:
+                        continue
+                    op = rv["op"]
+                    if side == "a":
+                        op = {"Lt": "Gt", "Gt": "Lt", "Le": "Ge", "Ge": "Le"}[op]
+                    want_incl = pol[flagv] == "incl"
+                    good = op in (("Le", "Gt") if want_incl else ("Lt", "Ge"))
+                    if good:
+                        n += 1
+                    else:
+                        out.viol(rule, "%s|%s|%s" % (rule, adtp, "inclusive" if want_incl else "exclusive"), ctx.where(b, s["span"]),
+                                 "with `%s` = %s the span's end is %s, but a change is compared against the end column with `%s`" % (
+                                     fname, str(flagv).lower(), "INCLUSIVE (built from an inclusive range's end)" if want_incl else "HALF-OPEN", {"Lt": "<", "Le": "<=", "Gt": ">", "Ge": ">="}[op]))
+                    break
+    return n
 
 
 def parser_call_sites(ctx, fp):
@@ -451,6 +527,14 @@ def check_siblings(ctx, out):
         a = next((x for x in cands if "std::ops::Range<" in x.local_ty(1)), None)
         b = next((x for x in cands if "std::ops::RangeInclusive<" in x.local_ty(1)), None)
     if a is None or b is None:
+        # one shared implementation serving both spans (the inclusive / half-open choice is then a value,
+        # decided by C02.incl): nothing to keep in agreement
+        shared_impl = [x for x in ctx.facts.bodies.values() if x.promoted is None and x.kind in ("AssocFn", "Fn") and x.local_ty(0) == "bool"
+                       and any("LineChange" in x.local_ty(i) and "[" not in x.local_ty(i) for i in range(1, x.argc + 1))
+                       and any(callee_matches(t, r"binary_search_by$") for y in ctx.facts.with_descendants(x) for _, t in y.calls())]
+        if len(shared_impl) == 1 and a is None and b is None:
+            out.inst("C02.siblings", 1, 1, ["one shared span-intersection implementation: %s" % shared_impl[0].id])
+            return
         out.inst("C02.siblings", 0, 1, note="span-intersection siblings not found")
         return
     from collections import Counter
@@ -583,6 +667,14 @@ def run(ctx, out, tier):
     from rules.C01 import check_skipfile
     check_skipfile(ctx, out, rule="C02.skipfile")
     shared.sh_units(ctx, out)
+    # a rule only runs if the lazy detection loop creates its validator: every pending detector is asked
+    # about every block (shared with C14)
+    from rules.C14 import check_once as _detect_once, detect_fn as _detect_fn
+    _dv = _detect_fn(ctx)
+    if _dv is not None:
+        _detect_once(ctx, out, _dv, rule="C02.detect")
+    else:
+        out.inst("C02.detect", 0, 4)
     return meta()
 
 
